@@ -47,7 +47,7 @@ func b64d(s string) []byte {
 }
 
 func c09(r *hx.Run) {
-	r.Rule = "for each of the 5 key types: compact JWS produced independently (fx.CompactJWS) and by the library's own signers (SignModel, SignPayload, and NewJWS with every split of the headers between the caller's protected set and the signer's headers) over {alg}, {alg,kid}, {alg,b64:false} headers x 3 payloads must verify under the matching JWK; every single-bit flip of every byte of the decoded payload and signature, every header byte substitution that changes the parsed header, every foreign key (9 others), and the signature classes (empty, +-1, half, double, r/s zero, =n, swapped, DER) must be rejected while (r, n-s) verifies; grammar of malformed compact strings / headers / JWKs must give an error and never a panic. Non-trivial: distinct (JWS, key) pairs that reach signature verification."
+	r.Rule = "for each of the 5 key types: compact JWS produced independently (fx.CompactJWS) and by the library's own signers (SignModel, SignPayload, and NewJWS with every split of the headers between the caller's protected set and the signer's headers) over {alg}, {alg,kid}, {alg,b64:false} headers x 3 payloads must verify under the matching JWK; every single-bit flip of every byte of the decoded payload and signature, every header byte substitution that changes the parsed header, every foreign key (9 others), and the signature classes (empty, +-1, one byte inserted at or removed from every position, half, double, r/s zero, =n, swapped, DER) must be rejected while (r, n-s) verifies; grammar of malformed compact strings / headers / JWKs must give an error and never a panic. Non-trivial: distinct (JWS, key) pairs that reach signature verification."
 	payloads := [][]byte{[]byte(`{"a":1}`), []byte(`{"deltaHash":"EiAbc","updateKey":{"crv":"Ed25519","kty":"OKP","x":"AA"}}`), bytes.Repeat([]byte("x"), 300)}
 	allKeys := map[string][]*fx.Key{}
 	var flat []*fx.Key
@@ -213,6 +213,16 @@ func c09(r *hx.Run) {
 				if ok, err := verifyNoPanic(r, caseID, mk(hb, pb, twin), key.JWK); !ok {
 					r.Violation("rejects-ecdsa-twin:"+j.kt, caseID, fmt.Sprintf("(r, n-s) twin of a genuine signature rejected: %v", err), nil)
 				}
+			}
+		}
+		// one byte inserted at / removed from EVERY position of the genuine signature (a wrongly sized signature is refused wherever
+		// the extra byte sits: in front, between r and s, at the end, ...)
+		for pos := 0; pos <= n; pos++ {
+			for _, b := range []byte{0x00, 0x01, 0xff} {
+				classes[fmt.Sprintf("insert-%02x-at-%d", b, pos)] = append(append(append([]byte{}, sb[:pos]...), b), sb[pos:]...)
+			}
+			if pos < n {
+				classes[fmt.Sprintf("delete-at-%d", pos)] = append(append([]byte{}, sb[:pos]...), sb[pos+1:]...)
 			}
 		}
 		for name, s := range classes {
